@@ -221,11 +221,22 @@ def corrupt(fault, sol, obj, meas, extras, layout, single, dt="f64", mdt=None):
     return sol, obj, meas, extras
 
 
-def _twin_sched(archive, entry, n, sol_dim):
+
+
+def sched_emitters(archive, n, sol_dim):
+    """emitters of a fault scheduler: the `n` rows of the malformed tell are split over 1-3 emitters (a malformed row
+    in a LATER emitter's slice must not leave the earlier emitters' rows in the archive)"""
     from ribs.emitters import GaussianEmitter
+    k = 1 if n < 2 else (2 if n < 4 or n % 2 else 3)
+    sizes = [n // k + (1 if j < n % k else 0) for j in range(k)]
+    return [GaussianEmitter(archive, sigma=0.5, x0=np.zeros(sol_dim), batch_size=b, seed=1 + j)
+            for j, b in enumerate(sizes) if b > 0]
+
+
+def _twin_sched(archive, entry, n, sol_dim):
     from ribs.schedulers import BanditScheduler, Scheduler
-    em = [GaussianEmitter(archive, sigma=0.5, x0=np.zeros(sol_dim), batch_size=n, seed=1)]
-    return Scheduler(archive, em) if entry == "sched_tell" else BanditScheduler(archive, em, num_active=1)
+    em = sched_emitters(archive, n, sol_dim)
+    return Scheduler(archive, em) if entry == "sched_tell" else BanditScheduler(archive, em, num_active=len(em))
 
 
 def inject(archive, fault, dt, sol_dim, nd, layout, sched=None, mdt=None):
